@@ -107,3 +107,88 @@ Proof.
   exists (run [ax 5; SetConstruct VField AuxCoord (PArr (Some [5]) true None) None None]).
   vm_compute. split; reflexivity.
 Qed.
+
+(* ------------------------------------------------------------------ *)
+(* A view that records its immediate source as _view_source instead of the
+   source's own _view_source ("self._view_source = source"): a view of a view
+   then consults the intermediate view's stale _field_data_axes attribute, so
+   an axis that only the field's data span can be deleted, or replaced by one
+   of another size, through the nested domain.  The same calls through the
+   first-level view are refused. *)
+Definition rule_immediate : src_rule := fun parent _ => parent.
+
+Definition nested_prefix : list wop :=
+  [ Plain (SetConstruct VField DomainAxis (PAxis 4) None None);
+    Plain (SetData [4] (Some ["domainaxis0"]));
+    Plain (InsertDimension None 0 false true []);
+    TakeView 0 RFromConstructs;
+    TakeView 1 RFromConstructs ].
+
+Definition wrun_with (rule : src_rule) (ops : list wop) : wstate :=
+  fold_left (fun w o => fst (wstep_with rule w o)) ops winit.
+
+Theorem C02_view_source_immediate_refuted :
+  let w := wrun_with rule_immediate nested_prefix in
+  (* through the first-level view: refused *)
+  snd (wstep_with rule_immediate w (Through 1 (DelConstruct VDomain "domainaxis1"))) = Rejected ValueErr /\
+  (* through the view of the view: accepted, and the field is broken *)
+  snd (wstep_with rule_immediate w (Through 2 (DelConstruct VDomain "domainaxis1"))) = Done /\
+  describe_ok (root (fst (wstep_with rule_immediate w (Through 2 (DelConstruct VDomain "domainaxis1"))))) = false /\
+  snd (wstep_with rule_immediate w
+         (Through 2 (SetConstruct VDomain DomainAxis (PAxis 3) (Some "domainaxis1") None))) = Done /\
+  (let s' := root (fst (wstep_with rule_immediate w
+                 (Through 2 (SetConstruct VDomain DomainAxis (PAxis 3) (Some "domainaxis1") None)))) in
+   match faxes s' with Some ax => check_field_axes (cons s') (fshape s') ax | None => true end = false) /\
+  (* the code as it is: both refused *)
+  (let w0 := wrun nested_prefix in
+   snd (wstep w0 (Through 2 (DelConstruct VDomain "domainaxis1"))) = Rejected ValueErr /\
+   snd (wstep w0 (Through 2 (SetConstruct VDomain DomainAxis (PAxis 3) (Some "domainaxis1") None))) = Rejected ValueErr).
+Proof. repeat split; vm_compute; reflexivity. Qed.
+
+(* ------------------------------------------------------------------ *)
+(* convert(full_domain=True) that skips coordinates whose axes tuple is empty
+   ("if not axes: continue" for "if axes is None: continue") but still carries
+   the references that name them: the derived field has a coordinate reference
+   naming a coordinate it does not hold.  The code as it is carries the scalar
+   coordinate. *)
+Definition conv_keep_nonempty (s : cstate) (dax : list key) (e : centry) : bool :=
+  conv_keep s dax e &&
+  match assoc (snd (fst e)) (caxes s) with Some (_ :: _) => true | _ => false end.
+
+Definition scalar_history : list op :=
+  [ ax 3;
+    SetConstruct VField DimCoord (PArr (Some [3]) true None) None (Some ["domainaxis0"]);
+    SetConstruct VField AuxCoord (PArr (Some []) true None) None (Some []);
+    SetConstruct VField CoordRef (PRef ["auxiliarycoordinate0"; "dimensioncoordinate0"] []) None None ].
+
+Theorem C02_convert_drops_scalar_coordinate_refuted :
+  let s := run scalar_history in
+  let bad := convert_with conv_keep_nonempty "dimensioncoordinate0" true s in
+  let good := convert "dimensioncoordinate0" true s in
+  snd bad = Done /\
+  cget CoordRef "coordinatereference0" (cons (fst bad))
+    = Some (PRef ["auxiliarycoordinate0"; "dimensioncoordinate0"] []) /\
+  assoc "auxiliarycoordinate0" (ctys (fst bad)) = None /\
+  snd good = Done /\
+  assoc "auxiliarycoordinate0" (ctys (fst good)) = Some AuxCoord /\
+  assoc "auxiliarycoordinate0" (caxes (fst good)) = Some [].
+Proof. vm_compute. repeat split; reflexivity. Qed.
+
+(* ------------------------------------------------------------------ *)
+(* Field(source=f, copy=False) as it stood: the new field g was given f's
+   constructs container itself.  The container records one _field_data_axes;
+   g.del_data_axes() clears it (and g's own data axes), after which
+   g.del_construct(axis) deletes, from the collection f uses, an axis that only
+   f's data span.  With the repair (C02-fix3-1) g has its own container:
+   Model.OnSibling leaves the root's collection alone. *)
+Definition sibling_delete_old (k : key) (s : cstate) : cstate * outcome :=
+  let (s', out) := del_construct VField k (with_field s (fshape s) None) in
+  (mkS (cons s') (ctys s') (caxes s') (fshape s) (faxes s), out).
+
+Theorem C02_shared_container_refuted :
+  let s := run [ax 5; SetData [5] (Some ["domainaxis0"]); InsertDimension None 0 false true []] in
+  faxes s = Some ["domainaxis1"; "domainaxis0"] /\
+  snd (sibling_delete_old "domainaxis1" s) = Done /\
+  describe_ok (fst (sibling_delete_old "domainaxis1" s)) = false /\
+  root (fst (wstep (mkW s []) (OnSibling []))) = s.
+Proof. vm_compute. repeat split; reflexivity. Qed.
